@@ -66,6 +66,15 @@ CHECKS = {
             "attributed only when the same case without boosts > 1 passes.",
             "Scores taken from a pristine copy (C11). Weightings that no longer claim quality support after the recorded fixes (PL2, DFree, ReverseWeighting) are outside the statement.",
             "DESIGN.md section 2 C12"),
+    "C13": ("exploration",
+            "exhaustive enumeration of the 8-bit domain (itertools-style, sharded over processes) + property-based testing (Hypothesis) with boundary-biased generators for wider types and an index-level range oracle",
+            "tiers8: every (start<=end | open end) x bracket combination x shift_step of the signed and unsigned 8-bit domain is enumerated (quick: steps 0,3,4,8; thorough: 0..8, "
+            "~4.8M combinations) and the union of the value sets covered by tiered_ranges must equal the interval exactly, using only indexed tiers; to_sortable must be a monotone "
+            "bijection. codec: generated 16/32/64-bit ints, floats incl. +-0.0/denormals/inf, Decimals, microsecond datetimes: byte round trip, byte order == value order, column "
+            "round trip, tier membership. index: generated fields and value multisets incl. the domain extremes; NumericRange/DateRange results, sortedby order and rejection of "
+            "out-of-domain values are compared with plain comparisons on the values.",
+            "exhaustive: true refers to the 8-bit tier space only; wider domains are sampled. Floats are ordered by the IEEE total order on non-NaN values (-0.0 below +0.0); NaN not generated.",
+            "DESIGN.md section 2 C13"),
     "C15": ("exploration",
             "property-based testing (Hypothesis): metamorphic relation docs(r(q)) == docs(q) over generated query trees and indexes",
             "Generated query trees over all public query types (incl. spans, Sequence, NullQuery, empty compounds, overlapping ranges) are rewritten by "
